@@ -72,6 +72,9 @@ type HistJ struct {
 	Lim   Num    `json:"lim"`
 	Cx    Num    `json:"cx"`
 	Rej   bool   `json:"rej"`
+	// where the request's context became done (ComplexityGate, Mode "ctx"): live | cancelled | deadline | during (the K-th call of a custom complexity function)
+	Cp string `json:"cp"`
+	K  int    `json:"k"`
 }
 
 // RowJ is one row of the Complexity(type, field) table the specification prescribes.
@@ -271,6 +274,7 @@ func (e *hwES) Complexity(ctx context.Context, typeName, field string, child int
 	if !ok {
 		return 0, false
 	}
+	ur.C14Priced(ctx) // a configured function (user code) runs: the context dimension may cancel the request here
 	return ur.C14Apply(c, child, ur.C14ArgX(args)), true
 }
 func (e *hwES) Exec(ctx context.Context) graphql.ResponseHandler {
@@ -605,7 +609,7 @@ func withExtras(cc *Conc, extras []ur.C14Probe) *Conc {
 }
 
 // concretiseHist renders one history of ComplexityGate: one query text, a sequence of requests.
-func concretiseHist(s *SchemaA, idx int, c *CaseJ, r *rand.Rand) *Conc {
+func concretiseHist(s *SchemaA, src string, idx int, c *CaseJ, r *rand.Rand) *Conc {
 	nA, nV, nF := 0, 0, 0
 	rd := &renderer{s: s, r: r, argMode: "lit", frags: map[string]string{}, nAlias: &nA, nVar: &nV, nFrag: &nF, vars: map[string]any{}}
 	body := rd.sels("Query", c.Sels)
@@ -629,9 +633,9 @@ func concretiseHist(s *SchemaA, idx int, c *CaseJ, r *rand.Rand) *Conc {
 		doc += "\n" + strings.Join(rd.fragDef, "\n")
 	}
 	other := "query " + opName + " { s }"
-	cc := &Conc{Src: "hist", Idx: idx, Variant: fmt.Sprintf("cache=%s/ndefault=%d", c.Cache, c.NDefault), Shape: shapeOf(c.Sels), CostCls: costClass(c.Costs), Abs: c,
+	cc := &Conc{Src: src, Idx: idx, Variant: fmt.Sprintf("cache=%s/ndefault=%d", c.Cache, c.NDefault), Shape: shapeOf(c.Sels), CostCls: costClass(c.Costs), Abs: c,
 		NonFirst: nonFirstShared(s, "Query", c.Sels)}
-	cc.Case = ur.C14Case{Cmd: "c14", ID: fmt.Sprintf("hist-%d", idx), Query: doc, OpName: opName, Vars: map[string]any{},
+	cc.Case = ur.C14Case{Cmd: "c14", ID: fmt.Sprintf("%s-%d", src, idx), Query: doc, OpName: opName, Vars: map[string]any{},
 		Costs: map[string]ur.C14Cost{}, Cache: c.Cache}
 	for _, k := range c.Costs {
 		cc.Case.Costs[k.Slot] = ur.C14Cost{K: k.Fn.K, C: conc(k.Fn.C), M: k.Fn.M}
@@ -646,7 +650,15 @@ func concretiseHist(s *SchemaA, idx int, c *CaseJ, r *rand.Rand) *Conc {
 			if h.C != "none" {
 				st.Vars["n"] = h.X
 			}
-			seq = append(seq, h.C+map[bool]string{true: "!", false: ""}[h.Rej])
+			el := h.C + map[bool]string{true: "!", false: ""}[h.Rej]
+			if h.Cp != "" && h.Cp != "live" {
+				st.Ctx, st.K = h.Cp, h.K
+				el += "@" + h.Cp
+				if h.Cp == "during" {
+					el += fmt.Sprint(h.K)
+				}
+			}
+			seq = append(seq, el)
 		}
 		cc.Case.Hist = append(cc.Case.Hist, st)
 		cc.Case.Limits = append(cc.Case.Limits, st.Limit)
@@ -688,11 +700,28 @@ type counters struct {
 	// shared entries: cases through a non-first field of a shared entry, requests of such cases over / within
 	// the limit, cells of the Complexity() table compared, of them cells of non-first fields with a custom cost
 	nonFirst, nonFirstRej, nonFirstAdm, cells, cellsNonFirstCustom, cellsExtra int64
-	sampled                                                                    map[string]bool
-	tableSeen                                                                  map[string]bool // table violation keys already reported (one report per key)
+	// the context dimension: requests whose context was done before / became done during pricing, over / within
+	// the limit; "during" requests and calculations where the k-th custom function really ran and cancelled;
+	// Calculate calls under a non-live context
+	ctxPre, ctxDuring, ctxOver, ctxWithin, ctxWithinExecuted, duringFired, calcCtx, calcCtxDuringFired int64
+	keyCount                                                                                           map[string]int
+	sampled                                                                                            map[string]bool
+	tableSeen                                                                                          map[string]bool // table violation keys already reported (one report per key)
 }
 
 func (k *counters) add(f func()) { k.mu.Lock(); f(); k.mu.Unlock() }
+
+// first reports whether fewer than n violations with this key were reported so far (a defect of the walker
+// fails thousands of Calculate calls the same way; the gate replay must get its share of the report).
+func (k *counters) first(key string, n int) bool {
+	k.mu.Lock()
+	defer k.mu.Unlock()
+	if k.keyCount == nil {
+		k.keyCount = map[string]int{}
+	}
+	k.keyCount[key]++
+	return k.keyCount[key] <= n
+}
 
 func judge(c *vlib.Check, k *counters, binding string, probe bool, cc *Conc, res *ur.C14Result) {
 	replay := map[string]any{"binding": binding, "conc": cc, "observed": res}
@@ -718,12 +747,42 @@ func judge(c *vlib.Check, k *counters, binding string, probe bool, cc *Conc, res
 		c.Violate("calculate-panics", fmt.Sprintf("complexity.Calculate: %s\n%s", res.CalcErr, desc()), replay)
 	} else if len(cc.Case.Hist) > 0 {
 		for i, got := range res.Calcs {
+			st := cc.Case.Hist[i]
+			if st.Ctx != "" {
+				k.add(func() {
+					k.calcCtx++
+					if i < len(res.CalcsFired) && res.CalcsFired[i] {
+						k.calcCtxDuringFired++
+					}
+				})
+			}
 			if got != cc.CxRun[i] {
-				c.Violate("calc-differs:"+cc.CostCls, fmt.Sprintf("complexity.Calculate = %d with variables %v, the definition gives %d\n%s", got, cc.Case.Hist[i].Vars, cc.CxRun[i], desc()), replay)
+				if st.Ctx != "" && !k.first("calc-depends-on-context:"+st.Ctx, 2) {
+					// already reported twice
+				} else if st.Ctx != "" {
+					c.Violate("calc-depends-on-context:"+st.Ctx, fmt.Sprintf("complexity.Calculate = %d under a context that %s, with variables %v; the complexity of the operation is %d whatever the context does\n%s", got, ctxDesc(st.Ctx, st.K), st.Vars, cc.CxRun[i], desc()), replay)
+				} else {
+					c.Violate("calc-differs:"+cc.CostCls, fmt.Sprintf("complexity.Calculate = %d with variables %v, the definition gives %d\n%s", got, st.Vars, cc.CxRun[i], desc()), replay)
+				}
 			}
 		}
-	} else if res.Calc != cc.Cx {
-		c.Violate("calc-differs:"+cc.CostCls, fmt.Sprintf("complexity.Calculate = %d, the definition gives %d\n%s", res.Calc, cc.Cx, desc()), replay)
+	} else {
+		if res.Calc != cc.Cx {
+			c.Violate("calc-differs:"+cc.CostCls, fmt.Sprintf("complexity.Calculate = %d, the definition gives %d\n%s", res.Calc, cc.Cx, desc()), replay)
+		}
+		if cc.Case.CalcCtx != "" {
+			c.AddEvals(1)
+			c.Class("calc-under-context|" + cc.Case.CalcCtx + "|" + cc.CostCls)
+			k.add(func() {
+				k.calcCtx++
+				if res.CalcCtxFired {
+					k.calcCtxDuringFired++
+				}
+			})
+			if res.CalcCtxV != cc.Cx && res.Calc == cc.Cx && k.first("calc-depends-on-context:"+cc.Case.CalcCtx, 2) {
+				c.Violate("calc-depends-on-context:"+cc.Case.CalcCtx, fmt.Sprintf("complexity.Calculate = %d under a context that %s (and %d under a live context); the complexity of the operation is %d whatever the context does\n%s", res.CalcCtxV, ctxDesc(cc.Case.CalcCtx, cc.Case.CalcK), res.Calc, cc.Cx, desc()), replay)
+			}
+		}
 	}
 	if len(res.Runs) != len(cc.Case.Limits) {
 		vlib.Infra("[%s] %d runs for %d limits", binding, len(res.Runs), len(cc.Case.Limits))
@@ -736,6 +795,24 @@ func judge(c *vlib.Check, k *counters, binding string, probe bool, cc *Conc, res
 		where := fmt.Sprintf("limit %d (%s, Cx=%d, %s)", lim, cc.LimRel[i], cxi, map[bool]string{true: "FixedComplexityLimit", false: "ComplexityLimit{Func}"}[cc.Case.Fixed])
 		if len(cc.Case.Hist) > 0 {
 			where = fmt.Sprintf("request %d of the history (query cache %s) with variables %v, limit %d, Cx=%d", i+1, cc.Case.Cache, cc.Case.Hist[i].Vars, lim, cxi)
+			if st := cc.Case.Hist[i]; st.Ctx != "" {
+				where += ", request context " + ctxDesc(st.Ctx, st.K)
+				k.add(func() {
+					if st.Ctx == "during" {
+						k.ctxDuring++
+						if r.Fired {
+							k.duringFired++
+						}
+					} else {
+						k.ctxPre++
+					}
+					if cc.Rej[i] {
+						k.ctxOver++
+					} else {
+						k.ctxWithin++
+					}
+				})
+			}
 			k.add(func() {
 				k.histReqs++
 				if i > 0 && cc.Case.Cache != "none" {
@@ -766,7 +843,23 @@ func judge(c *vlib.Check, k *counters, binding string, probe bool, cc *Conc, res
 			}
 		} else {
 			k.add(func() { k.admitted++ })
+			ctxDone := len(cc.Case.Hist) > 0 && cc.Case.Hist[i].Ctx != ""
+			forComplexity := false
+			for _, code := range r.Codes {
+				if code == "COMPLEXITY_LIMIT_EXCEEDED" {
+					forComplexity = true
+				}
+			}
 			switch {
+			case ctxDone:
+				// the request's context is done: whether and how far the operation still executes is not C14's
+				// business (resolvers see a done context); it must not be rejected FOR COMPLEXITY
+				if forComplexity {
+					c.Violate("within-limit-rejected", fmt.Sprintf("%s: the operation is within the limit but was rejected for complexity: %v\n%s", where, r.Errors, desc()), replay)
+				}
+				if len(r.Errors) == 0 && r.HasData {
+					k.add(func() { k.ctxWithinExecuted++ })
+				}
 			case isRejected && r.Resolved == 0:
 				c.Violate("within-limit-rejected", fmt.Sprintf("%s: the operation is within the limit but was rejected: %v\n%s", where, r.Errors, desc()), replay)
 			case len(r.Errors) > 0:
@@ -816,6 +909,19 @@ func judge(c *vlib.Check, k *counters, binding string, probe bool, cc *Conc, res
 }
 
 // judgeTable compares what ExecutableSchema.Complexity answered with the table the specification prescribes.
+// ctxDesc says in words what the context of a request / calculation does.
+func ctxDesc(state string, k int) string {
+	switch state {
+	case "cancelled":
+		return "is cancelled before the operation is priced"
+	case "deadline":
+		return "has a deadline that passed before the operation is priced"
+	case "during":
+		return fmt.Sprintf("is cancelled while the operation is priced (from inside call %d of a custom complexity function)", k)
+	}
+	return "is live"
+}
+
 func judgeTable(c *vlib.Check, k *counters, binding string, cc *Conc, res *ur.C14Result, replay map[string]any) {
 	if len(res.Cells) != len(cc.Case.Table) || len(cc.TableExp) != len(cc.Case.Table) {
 		vlib.Infra("[%s] %d cells for %d probes", binding, len(res.Cells), len(cc.Case.Table))
@@ -1149,7 +1255,7 @@ func main() {
 	if thorough {
 		gateCfg = "MC_ComplexityGate_thorough.cfg"
 	}
-	var small, thm, grid, gen, frag, gate, bind *tlcOut
+	var small, thm, grid, gen, frag, gate, bind, gctx *tlcOut
 	var wg sync.WaitGroup
 	wg.Add(6)
 	go func() {
@@ -1168,12 +1274,17 @@ func main() {
 		grid = runTLC("MC_Complexity_grid.cfg", "tlc-grid", 1, true, false, 10*time.Minute)
 		bind = runTLC("MC_Complexity_bind.cfg", "tlc-bind", 1, true, false, 15*time.Minute)
 	}()
-	go func() { defer wg.Done(); gen = runTLC(genCfg, "tlc-gen", 1, true, false, 40*time.Minute) }()
+	go func() {
+		defer wg.Done()
+		gen = runTLC(genCfg, "tlc-gen", 1, true, false, 40*time.Minute)
+		// the request context as state (at most six TLC processes at a time: after the emission run)
+		gctx = runTLC("MC_ComplexityGate_ctx.cfg", "tlc-gctx", 1, true, false, 20*time.Minute)
+	}()
 	wg.Wait()
 	if thm.res.Distinct != gen.res.Distinct {
 		vlib.Infra("the theorem run (%d states) and the emission run (%d states) explored different state spaces", thm.res.Distinct, gen.res.Distinct)
 	}
-	for _, t := range []*tlcOut{small, thm, grid, gen, frag, gate, bind} {
+	for _, t := range []*tlcOut{small, thm, grid, gen, frag, gate, bind, gctx} {
 		c.AddStates(t.res.Distinct, t.res.Generated)
 	}
 	if thorough {
@@ -1184,6 +1295,7 @@ func main() {
 		}
 	}
 	fmt.Fprintf(os.Stderr, "TLC: frag %d cases %.0fs, %s %d histories (%d states) %.0fs\n", len(frag.cases), frag.res.WallS, gateCfg, len(gate.cases), gate.res.Distinct, gate.res.WallS)
+	fmt.Fprintf(os.Stderr, "TLC: gate/ctx %d histories (%d states) %.0fs\n", len(gctx.cases), gctx.res.Distinct, gctx.res.WallS)
 	fmt.Fprintf(os.Stderr, "TLC: bind %d cases (%d states) %.0fs\n", len(bind.cases), bind.res.Distinct, bind.res.WallS)
 	fmt.Fprintf(os.Stderr, "TLC: small %d states %.0fs, theorems %s %d states %.0fs, grid %d cases %.0fs, %s %d cases %.0fs\n",
 		small.res.Distinct, small.res.WallS, thmCfg, thm.res.Distinct, thm.res.WallS, len(grid.cases), grid.res.WallS, genCfg, len(gen.cases), gen.res.WallS)
@@ -1200,6 +1312,7 @@ func main() {
 
 	// 3. concretise
 	r := rand.New(rand.NewSource(seed))
+	rc := rand.New(rand.NewSource(seed*7919 + 14))
 	var concs []*Conc
 	modes := []string{"lit", "var", "vdef"}
 	add := func(src string, cases []*CaseJ) {
@@ -1222,7 +1335,18 @@ func main() {
 					}
 				}
 				fixed := r.Intn(2) == 0
-				concs = append(concs, concretise(schemaA, src, i, cs, decoys, r, m, fixed))
+				cc := concretise(schemaA, src, i, cs, decoys, r, m, fixed)
+				// complexity.Calculate once more under a context that is done or becomes done while pricing
+				// (its own random stream: the documents of a seed stay what they were)
+				switch rc.Intn(4) {
+				case 0:
+					cc.Case.CalcCtx = "cancelled"
+				case 1:
+					cc.Case.CalcCtx = "deadline"
+				default:
+					cc.Case.CalcCtx, cc.Case.CalcK = "during", 1+rc.Intn(2)
+				}
+				concs = append(concs, cc)
 			}
 		}
 	}
@@ -1252,8 +1376,16 @@ func main() {
 		if len(h.Hist) == 0 {
 			vlib.Infra("%s printed a line without a history", gateCfg)
 		}
-		concs = append(concs, concretiseHist(schemaA, i, h, r))
+		concs = append(concs, concretiseHist(schemaA, "hist", i, h, r))
 		nHist++
+	}
+	nCtxHist := 0
+	for i, h := range gctx.cases {
+		if len(h.Hist) == 0 {
+			vlib.Infra("MC_ComplexityGate_ctx.cfg printed a line without a history")
+		}
+		concs = append(concs, concretiseHist(schemaA, "ctx", i, h, r))
+		nCtxHist++
 	}
 
 	// 4. replay against the real code
@@ -1285,10 +1417,11 @@ func main() {
 
 	// 5. non-vacuity and evidence
 	if k.rejected == 0 || k.admitted == 0 || k.stats == 0 || k.multi == 0 || k.spreads == 0 || k.iface == 0 || k.argvar == 0 || k.sat == 0 || k.respread == 0 || k.histReqs == 0 || k.histCached == 0 ||
-		k.nonFirst == 0 || k.nonFirstRej == 0 || k.nonFirstAdm == 0 || k.cells == 0 || k.cellsNonFirstCustom == 0 || k.cellsExtra == 0 || nTable == 0 {
+		k.nonFirst == 0 || k.nonFirstRej == 0 || k.nonFirstAdm == 0 || k.cells == 0 || k.cellsNonFirstCustom == 0 || k.cellsExtra == 0 || nTable == 0 ||
+		k.ctxPre == 0 || k.ctxDuring == 0 || k.ctxOver == 0 || k.ctxWithin == 0 || k.duringFired == 0 || k.calcCtx == 0 || k.calcCtxDuringFired == 0 || nCtxHist == 0 {
 		vlib.Infra("vacuous run: %+v", k)
 	}
-	c.Set("rule", "TLC enumerates every selection tree over the abstract schema (objects, interface Node with implementors A/B/Named, union U; fields, arguments, inline fragments, fragment spreads, __typename, __schema) with at most MaxSize nodes (quick 3, thorough 4; siblings in canonical order, the concretiser permutes them) x every assignment of the cost-function family {const 0/2/-1/H/H+1/MAX-1/MAX, child+0/2/MAX-1, child*2, child-1, child+arg} to at most two Type.field slots plus the uniform assignments, plus the safeAdd grid corpus (7 two-cost operation shapes x all pairs of the 12-point int boundary grid), plus the fragment corpus (one named fragment spread 2-3 times: sibling fields, different parent types, nested, twice in one selection set, inside another fragment; 30 shapes x cost pairs incl. child*k); the spec prescribes Cx and the gate decision for limits {Cx-1, Cx, Cx+1, 0, MAX}. Each case runs against complexity.Calculate and an HTTP POST per limit on handler.Server+ComplexityLimit, over a hand-written ExecutableSchema and over generated servers (both layouts). ComplexityGate.tla adds histories: one server (query cache none/MapCache/lru/lru of size 1) receives every sequence of 2 (thorough 3, optionally another query text in between) requests with the same query text whose cost depends on the request variable $n in {absent, 3, 100} at limit Cx-1 or Cx; each request is judged against its own prescribed decision. Custom cost functions are configured per ComplexityRoot ENTRY; the binding (state bnd: which entry serves which GraphQL field) is part of the model, and the object Sh has entries shared by 2-3 GraphQL fields in every way gqlgen supports (gqlgen.yml fieldName, @goField(name:), new_foo/newFoo collapsing to one Go name, a resolver-backed field sharing the Go name, struct field and method with an argument; declared first/second/last). The bind corpus sends operations through EVERY field of every group (alone, two of a group side by side, below one named fragment spread twice, two groups side by side; arguments as literal/variable/variable default) x cost assignments on the shared entry, its parent and its child, with the gate limits as above; and the Complexity() table calls the generated ExecutableSchema.Complexity(type, field, child, args) directly for EVERY (type, field) of the probe's schema x child in {0,4} x argument absent/set under {each entry alone with const 2 / child+2 / child+arg, all entries const 7, none} and compares with the specification's GenComplexity (fields outside the abstract schema are served by their own, never configured, entry). A class is distinct by (tree shape, cost-assignment class, limit relation or cache kind + request sequence) resp. (type.field, way of binding and declaration position, cost class, argument, custom or not).")
+	c.Set("rule", "TLC enumerates every selection tree over the abstract schema (objects, interface Node with implementors A/B/Named, union U; fields, arguments, inline fragments, fragment spreads, __typename, __schema) with at most MaxSize nodes (quick 3, thorough 4; siblings in canonical order, the concretiser permutes them) x every assignment of the cost-function family {const 0/2/-1/H/H+1/MAX-1/MAX, child+0/2/MAX-1, child*2, child-1, child+arg} to at most two Type.field slots plus the uniform assignments, plus the safeAdd grid corpus (7 two-cost operation shapes x all pairs of the 12-point int boundary grid), plus the fragment corpus (one named fragment spread 2-3 times: sibling fields, different parent types, nested, twice in one selection set, inside another fragment; 30 shapes x cost pairs incl. child*k); the spec prescribes Cx and the gate decision for limits {Cx-1, Cx, Cx+1, 0, MAX}. Each case runs against complexity.Calculate and an HTTP POST per limit on handler.Server+ComplexityLimit, over a hand-written ExecutableSchema and over generated servers (both layouts). ComplexityGate.tla adds histories: one server (query cache none/MapCache/lru/lru of size 1) receives every sequence of 2 (thorough 3, optionally another query text in between) requests with the same query text whose cost depends on the request variable $n in {absent, 3, 100} at limit Cx-1 or Cx; each request is judged against its own prescribed decision. Custom cost functions are configured per ComplexityRoot ENTRY; the binding (state bnd: which entry serves which GraphQL field) is part of the model, and the object Sh has entries shared by 2-3 GraphQL fields in every way gqlgen supports (gqlgen.yml fieldName, @goField(name:), new_foo/newFoo collapsing to one Go name, a resolver-backed field sharing the Go name, struct field and method with an argument; declared first/second/last). The bind corpus sends operations through EVERY field of every group (alone, two of a group side by side, below one named fragment spread twice, two groups side by side; arguments as literal/variable/variable default) x cost assignments on the shared entry, its parent and its child, with the gate limits as above; and the Complexity() table calls the generated ExecutableSchema.Complexity(type, field, child, args) directly for EVERY (type, field) of the probe's schema x child in {0,4} x argument absent/set under {each entry alone with const 2 / child+2 / child+arg, all entries const 7, none} and compares with the specification's GenComplexity (fields outside the abstract schema are served by their own, never configured, entry). The request CONTEXT is state of the gate machine too (ComplexityGate Mode ctx: Arrive / PriceCall / DecideReq; a context is live, done before pricing (cancelled or deadline passed) or becomes done in the k-th call of a custom complexity function - user code, which the harness lets cancel the request context from inside) and no decision reads it: 4 query texts calling 2-4 custom functions x every sequence of 2 requests x limit Cx-1/Cx x every such context point are sent to one server (request context pre-cancelled / deadline in the past / cancelled from inside the k-th ComplexityRoot function while ComplexityLimit prices the operation) and complexity.Calculate is called under the same contexts; in addition every case of every corpus calls complexity.Calculate once more under a cancelled / deadline-exceeded / cancelled-in-call-1-or-2 context. Over the limit => rejected and no resolver ran, whatever the context; the number is the same whatever the context. A class is distinct by (tree shape, cost-assignment class, limit relation or cache kind + request sequence incl. context points) resp. (type.field, way of binding and declaration position, cost class, argument, custom or not).")
 	c.Set("exhaustive", true)
 	c.Set("tlc", map[string]any{
 		"small_theorems": map[string]any{"distinct": small.res.Distinct, "wall_s": small.res.WallS},
@@ -1297,6 +1430,7 @@ func main() {
 		"fragments":      map[string]any{"distinct": frag.res.Distinct, "cases": len(frag.cases), "wall_s": frag.res.WallS},
 		"gate_histories": map[string]any{"config": gateCfg, "distinct": gate.res.Distinct, "histories": len(gate.cases), "wall_s": gate.res.WallS},
 		"corpus":         map[string]any{"config": genCfg, "distinct": gen.res.Distinct, "cases": len(gen.cases), "wall_s": gen.res.WallS},
+		"gate_contexts":  map[string]any{"config": "MC_ComplexityGate_ctx.cfg", "distinct": gctx.res.Distinct, "histories": len(gctx.cases), "wall_s": gctx.res.WallS},
 		"shared_entries": map[string]any{"distinct": bind.res.Distinct, "cases": len(bind.cases), "operations": len(bindOps), "table_assignments": nTable, "wall_s": bind.res.WallS},
 	})
 	c.Set("concrete_cases", len(concs))
@@ -1305,12 +1439,21 @@ func main() {
 		"documents_with_named_fragments": k.spreads, "interface_field_cases": k.iface, "cases_with_variables": k.argvar, "saturated_at_MaxInt": k.sat,
 		"documents_spreading_one_fragment_repeatedly": k.respread, "history_requests": k.histReqs, "history_requests_after_first_on_caching_server": k.histCached,
 		"cases_through_a_non_first_field_of_a_shared_entry": k.nonFirst, "their_requests_over_limit": k.nonFirstRej, "their_requests_within_limit": k.nonFirstAdm,
-		"complexity_table_cells": k.cells, "table_cells_custom_cost_via_non_first_field": k.cellsNonFirstCustom, "table_cells_of_fields_outside_the_abstract_schema": k.cellsExtra})
+		"complexity_table_cells": k.cells, "table_cells_custom_cost_via_non_first_field": k.cellsNonFirstCustom, "table_cells_of_fields_outside_the_abstract_schema": k.cellsExtra,
+		"requests_context_done_before_pricing": k.ctxPre, "requests_context_cancelled_during_pricing": k.ctxDuring, "of_them_cancel_hook_fired": k.duringFired,
+		"context_requests_over_limit": k.ctxOver, "context_requests_within_limit": k.ctxWithin, "of_them_executed_without_errors": k.ctxWithinExecuted,
+		"calculate_calls_under_a_non_live_context": k.calcCtx, "of_them_cancelled_from_inside_a_custom_function": k.calcCtxDuringFired})
 	c.Set("binding", schemaA.Binding)
+	// on a tree without violations every "during" request must really have been cancelled from inside pricing
+	if c.Violations() == 0 && k.duringFired != k.ctxDuring {
+		vlib.Infra("context dimension: %d of %d requests whose context should be cancelled during pricing were (the model's NCalls does not match the walker)", k.duringFired, k.ctxDuring)
+	}
 	c.Set("histories", nHist)
+	c.Set("context_histories", nCtxHist)
 	c.Assume("the cost functions of the family are the harness's own user code (saturating at both ends); user functions that overflow by themselves are outside the statement")
 	c.Assume("symbolic integers h*H+d (H=(MaxInt-1)/2) are compared lexicographically: exact while |d| < H/2; the model keeps |d| < 100 (invariant TDSmall) and the lemma PairAlgebra is checked by TLC")
 	c.Assume("the probe realises the model's binding: checked before the replay by reading the generated ComplexityRoot struct by reflection (entries, signatures, declaration order inside each group, resolver-backed fields), not through the Complexity() switch under test")
+	c.Assume("a context that becomes done DURING pricing is produced deterministically: the k-th call of a configured custom complexity function (user code in the middle of complexity.Calculate) cancels the request context; cancellations between two instructions of the walker itself are not scheduled")
 	c.Assume("hand-written schema: 'a resolver ran' is observed as ExecutableSchema.Exec being invoked; generated servers: resolver Start events of the universal resolver")
 	// samples: one per source / interesting feature
 	pick := func(pred func(*Conc) bool) {
@@ -1336,9 +1479,12 @@ func main() {
 	pick(func(cc *Conc) bool {
 		return cc.Src == "bind" && cc.NonFirst && strings.Contains(cc.Shape, "stock(x)") && strings.Contains(cc.CostCls, "argmul") && len(cc.Case.Costs) == 1
 	})
-	pick(func(cc *Conc) bool {
-		return cc.Src == "bind" && strings.Contains(cc.Shape, "~Sh{new_bar") && len(cc.Case.Costs) == 2 && len(cc.Case.Vars) > 0
-	})
+	for _, cc := range concs {
+		if cc.Src == "ctx" && len(cc.Case.Hist) == 2 && cc.Case.Hist[0].Ctx == "during" && cc.Case.Hist[0].K == 2 && cc.Case.Hist[1].Ctx == "deadline" && cc.Rej[0] && !cc.Rej[1] {
+			c.Sample(map[string]any{"query": cc.Case.Query, "cache": cc.Case.Cache, "costs": cc.Case.Costs, "history_with_request_contexts": cc.Case.Hist, "cx": cc.CxRun, "rejected": cc.Rej})
+			break
+		}
+	}
 	for _, cc := range concs {
 		if cc.Src == "table" && len(cc.Case.Costs) == 1 {
 			if _, ok := cc.Case.Costs["Sh.NewBar"]; ok && cc.CostCls == "arg" {
